@@ -344,6 +344,35 @@ func estimate(p uint32, thorough bool, v viol, evals *int64, worst *float64, mu 
 			next = n + n/100 + 1
 			atomic.AddInt64(evals, 1)
 			est := float64(h.Cardinality())
+			// serialising and rebuilding preserves the estimate at every fill level (not only for
+			// the handful of items of the state search), and the rebuilt counter is a full counter:
+			// it can be the receiver of a merge
+			{
+				stop := false
+				func() {
+					defer func() {
+						if r := recover(); r != nil {
+							v("rebuild:panic", fmt.Sprintf("p=%d family %d, %d distinct items: using the counter rebuilt from GetBytes() panicked: %v", p, fi, n, r))
+							stop = true
+						}
+					}()
+					rb := hll.BuildHyperLogLog(append([]byte{}, h.GetBytes()...))
+					if got := float64(rb.Cardinality()); got != est {
+						v("rebuild:estimate", fmt.Sprintf("p=%d family %d: after %d distinct items Cardinality()=%.0f, the counter rebuilt from its bytes estimates %.0f", p, fi, n, est, got))
+						stop = true
+						return
+					}
+					one := hll.NewHyperLogLogInt(p)
+					one.OfferLong(f(n))
+					if mg := rb.Merge(one); !bytes.Equal(mg.GetBytes(), h.GetBytes()) {
+						v("rebuild:merge", fmt.Sprintf("p=%d family %d, %d distinct items: merging a counter of the last item into the rebuilt counter does not give the counter's own bytes", p, fi, n))
+						stop = true
+					}
+				}()
+				if stop {
+					break
+				}
+			}
 			dev := math.Abs(est - float64(n))
 			sigma := 1.04 / math.Sqrt(float64(m))
 			// HyperLogLog regime: 5 standard errors. Small sets ("near-exact"): linear counting,
